@@ -122,7 +122,15 @@ def c02(res, scenario) -> list[Violation]:
         out.append(Violation("c02:deadlock", f"no thread can move: {res.sched_abort}", case))
         return out
     if res.outcome.startswith("aborted"):
-        return out                      # budget exhausted under this schedule: inconclusive
+        # budget exhausted: inconclusive under an unfair schedule — unless the control thread sits in
+        # launch()'s final join while the shutdown event was never set: then nothing can ever end the
+        # background loops (a hang, not a slow schedule)
+        if res.pending_at_abort.get("control", "").startswith("join:") and \
+                not any(e[1] == "set" and e[2] == "shutdown" for e in res.events):
+            out.append(Violation("c02:hang-no-shutdown",
+                                 f"launch() is joining {res.pending_at_abort['control'][5:]} but shutdown "
+                                 f"was never signalled: the background threads can never stop", case))
+        return out
     user_fault = any(e[1] in ("cb_raise", "savecond_raise") for e in res.events)
     if res.outcome.startswith("raised") and "KeyboardInterrupt" not in res.outcome and not user_fault:
         out.append(Violation(f"c02:launch-raised:{res.outcome.split(':')[1]}",
@@ -191,6 +199,10 @@ def c03(res, scenario) -> list[Violation]:
         out.append(Violation("c03:hang", f"system hangs after a fault: {res.sched_abort}", case))
         return out
     if res.outcome.startswith("aborted"):
+        if res.pending_at_abort.get("control", "").startswith("join:") and \
+                not any(e[1] == "set" and e[2] == "shutdown" for e in res.events):
+            out.append(Violation("c03:hang", "after the fault launch() joins the background threads "
+                                 "although shutdown was never signalled: it can never return", case))
         return out
     if res.post.get("alive"):
         out.append(Violation("c03:thread-alive", f"threads still alive: {res.post['alive']}", case))
